@@ -1136,6 +1136,27 @@ func (r *Run) DoDisk(d *DiskOp) {
 				r.W.Count.Inc("fault.legacy_item")
 			}
 		}
+	case "tail_partial_batch":
+		// what a torn multi-event append leaves: the first line (claim) whole,
+		// the second (state) cut off
+		var id string
+		for _, t := range r.M.Tasks() {
+			if t.State == "todo" && t.ClaimedBy == "" {
+				id = t.ID
+				break
+			}
+		}
+		b, err := os.ReadFile(lp)
+		if id == "" || err != nil || (len(b) > 0 && b[len(b)-1] != '\n') {
+			break
+		}
+		if f, err := os.OpenFile(lp, os.O_APPEND|os.O_WRONLY, 0o644); err == nil {
+			t := fmtTS(r.W.Clock.Next())
+			fmt.Fprintf(f, `{"type":"claim","ts":%q,"data":{"id":%q,"agent_id":"torn@h","ts":%q}}`+"\n"+`{"type":"state","ts":%q,"data":{"id":%q,"sta`, t, id, t, t, id)
+			f.Close()
+			r.W.Count.Inc("fault.tail_partial_batch")
+			r.Faults++
+		}
 	case "tail_fragment":
 		// what a torn append leaves: a prefix of a JSON line without newline
 		f, err := os.OpenFile(lp, os.O_APPEND|os.O_WRONLY, 0o644)
